@@ -51,12 +51,21 @@ UNIT2 = [("psd_tools.psd.base", "EmptyElement", ("read", "write")),
          ("psd_tools.psd.tagged_blocks", "PixelSourceData2", ("read", "write")),
          ("psd_tools.psd.tagged_blocks", "Annotations", ("read", "write")),
          ("psd_tools.psd.tagged_blocks", "Annotation", ("read", "write"))]
-UNITS = {"unit1": UNIT1, "unit2": UNIT2}
+UNIT3 = [("psd_tools.psd.effects_layer", "CommonStateInfo", ("read", "write")),
+         ("psd_tools.psd.effects_layer", "ShadowInfo", ("read", "write")),
+         ("psd_tools.psd.effects_layer", "_GlowInfo", ("_read_body", "_write_body")),
+         ("psd_tools.psd.effects_layer", "OuterGlowInfo", ("read", "write")),
+         ("psd_tools.psd.effects_layer", "InnerGlowInfo", ("read", "write")),
+         ("psd_tools.psd.effects_layer", "BevelInfo", ("read", "write")),
+         ("psd_tools.psd.effects_layer", "SolidFillInfo", ("read", "write")),
+         ("psd_tools.psd.effects_layer", "EffectsLayer", ("read", "write"))]
+UNITS = {"unit1": UNIT1, "unit2": UNIT2, "unit3": UNIT3}
 # classes a registry row is emitted for (tagged_blocks.TYPES: key -> class name)
 REGISTRY_CLASSES = {"unit2": ["EmptyElement", "IntegerElement", "ShortIntegerElement", "ByteElement", "StringElement", "Bytes",
                               "ProtectedSetting", "SheetColorSetting", "ReferencePoint", "SectionDividerSetting", "UserMask",
                               "FilterMask", "ChannelBlendingRestrictionsSetting", "MetadataSettings", "PixelSourceData2",
-                              "Annotations"]}
+                              "Annotations"],
+                    "unit3": ["EffectsLayer"]}
 
 
 def _s(x: str) -> str:
@@ -240,6 +249,37 @@ def unit2(notes):
     return t
 
 
+def _conditions(modname, cname, mname, notes):
+    """the tests of the `if` statements of a method, in source order (AST)"""
+    _, tree = _module_tree(modname, notes)
+    fn = _method_node(_class_node(tree, cname), mname)
+    if fn is None:
+        return ["<missing>"]
+    found = [((n.lineno, n.col_offset), " ".join(ast.unparse(n.test).split())) for n in ast.walk(fn) if isinstance(n, ast.If)]
+    found.sort()
+    return [t for _, t in found]
+
+
+def unit3(notes):
+    t = {}
+    E = importlib.import_module("psd_tools.psd.effects_layer")
+    C = importlib.import_module("psd_tools.constants")
+    reg = getattr(getattr(E, "EffectsLayer", None), "EFFECT_TYPES", None)
+    if not isinstance(reg, dict):
+        notes.append("EffectsLayer.EFFECT_TYPES not found: generated as empty")
+        reg = {}
+    t["effectTypes"] = [(bytes(getattr(k, "value", k)), getattr(v, "__name__", repr(v))) for k, v in reg.items()]
+    try:
+        t["effectKeys"] = sorted(bytes(m.value) for m in C.EffectOSType)
+    except Exception:  # noqa
+        notes.append("constants.EffectOSType not found: generated as empty")
+        t["effectKeys"] = []
+    # the version tests that decide the optional trailers: (class, method, tests of its `if` statements)
+    t["effectConditions"] = [(c, m, "; ".join(_conditions("psd_tools.psd.effects_layer", c, m, notes)))
+                             for c in ("OuterGlowInfo", "InnerGlowInfo", "BevelInfo") for m in ("read", "write")]
+    return t
+
+
 def registry_rows(names, notes):
     TB = importlib.import_module("psd_tools.psd.tagged_blocks")
     reg = getattr(TB, "TYPES", None)
@@ -295,6 +335,19 @@ def gen_payload(ctx):
         f"/-- `MetadataSetting._KNOWN_KEYS`, sorted -/\ndef metadataDescriptorKeys : List (List UInt8) := {bl(t2['metadataDescriptorKeys'])}\n"
         f"/-- options of the validator of `Annotation.kind` -/\ndef annotationKinds : List (List UInt8) := {bl(t2['annotationKinds'])}\n"
         f"/-- options of the validator of `Annotation.marker` -/\ndef annotationMarkers : List (List UInt8) := {bl(t2['annotationMarkers'])}\n")
+    # ---- unit 3
+    try:
+        t3 = unit3(notes)
+    except Exception as e:  # noqa
+        notes.append(f"unit3 extraction failed: {type(e).__name__}: {e}")
+        t3 = {"effectTypes": [], "effectKeys": [], "effectConditions": [("<extractor>", "<failed>", "<missing>")]}
+    parts.append(
+        "/-- `EffectsLayer.EFFECT_TYPES`: (key, class name), in the order of the dict -/\n"
+        "def effectTypes : List (List UInt8 × String) := ["
+        + ", ".join(f"({_bytes(k)}, {_s(v)})" for k, v in t3["effectTypes"]) + "]\n"
+        f"/-- members of `constants.EffectOSType`, sorted -/\ndef effectKeys : List (List UInt8) := {bl(t3['effectKeys'])}\n"
+        "/-- the tests of the `if` statements of read / write of the effect infos with a version-dependent trailer -/\n"
+        f"def effectConditions : List (String × String × String) := {rows4(t3['effectConditions'])}\n")
     for unit, names in REGISTRY_CLASSES.items():
         try:
             rows = registry_rows(names, notes)
